@@ -267,6 +267,20 @@ def charFin (s : LexSt) (r : LexSt × List Char × Nat) : Option (LexSt × Token
     else s4
   some (s5, mkTok "CHAR_CONST" s s5 (some r.2.1))
 
+/-- `parseChar` with its tail named -/
+theorem parseChar_eq (s : LexSt) : parseChar s =
+    (match quotePrefix '\'' s.rest Generated.quotePrefixes with
+    | none => none
+    | some n =>
+      match popN n s with
+      | (_, none) => none
+      | (s1, some pre) =>
+        if rawPeek s1.rest != some ['\''] then none else
+        match popOne false false s1 with
+        | (_, none) => none
+        | (s2, some q) => charFin s (charLoop s.line s.col (s2.rest.length + 1) s2 (pre ++ q) 0)) := by
+  rfl
+
 theorem charFin_sh (s : LexSt) (r : LexSt × List Char × Nat) :
     charFin (shSt d0 dl dp s) (shSt d0 dl dp r.1, r.2) = shRes d0 dl dp (charFin s r) := by
   obtain ⟨s3, v, chars⟩ := r
@@ -349,6 +363,23 @@ def strFin (s : LexSt) (r : LexSt × List Char × Bool) : Option (LexSt × Token
         [⟨s.line, s.col, some r.2.1.length, none⟩, ⟨s.line, s.col + r.2.1.length, some 1, some strHint⟩])
     else r.1
   some (s4, mkTok "STRING" s s4 (some r.2.1))
+
+/-- `parseString` with its tail named -/
+theorem parseString_eq (s : LexSt) : parseString s =
+    (match peek1 s.rest 0 with
+    | none => none
+    | some _ =>
+    match quotePrefix '"' s.rest Generated.quotePrefixes with
+    | none => none
+    | some n =>
+      match popN n s with
+      | (_, none) => none
+      | (s1, some pre) =>
+        if rawPeek s1.rest != some ['"'] then none else
+        match popOne false false s1 with
+        | (_, none) => none
+        | (s2, some q) => strFin s (strLoop (s2.rest.length + 1) s2 (pre ++ q))) := by
+  rfl
 
 theorem strFin_sh (s : LexSt) (r : LexSt × List Char × Bool) :
     strFin (shSt d0 dl dp s) (shSt d0 dl dp r.1, r.2) = shRes d0 dl dp (strFin s r) := by
